@@ -251,7 +251,7 @@ class LocationProtocol(HDAP):
         )
         self.result: LocationProtocolResultCodes = LocationProtocolResultCodes(
             result
-            if isinstance(result, int)
+            if isinstance(result, (int, LocationProtocolResultCodes))
             else int.from_bytes(result, byteorder="big")
         )
         self.gpsdata: GPSData = (
